@@ -20,6 +20,7 @@ func init() {
 			c.Clause("C11-N1 (necessary conditions of intact delivery)")
 			ruleDelimiterRecv(c)
 			ruleFullReads(c)
+			ruleRecordFilledByFullRead(c)
 		},
 	})
 	register(&Def{
@@ -41,6 +42,8 @@ func init() {
 			ruleContentType(c)
 			c.Clause("C12-D6")
 			ruleFullReads(c)
+			ruleRecordFilledByFullRead(c)
+			ruleDataWithReaderError(c)
 			ruleReaderAcceptsDataEOF(c)
 		},
 	})
